@@ -124,12 +124,23 @@ def charges(rep):
     pr = rep.f(N2G, "NXToGML._charge_to_string")
     rd = rep.f(G2N, "GMLToNX._extract_element_and_charge")
     mcall = [c for c in walk_local(rd.node) if isinstance(c, ast.Call) and dotted(c.func) in ("re.match", "re.fullmatch")]
+    pattern = None
+    if not mcall:
+        # a pattern compiled once at module level:  NAME = re.compile(<literal>)  ...  NAME.match(label)
+        for c in walk_local(rd.node):
+            if isinstance(c, ast.Call) and isinstance(c.func, ast.Attribute) and c.func.attr in ("match", "fullmatch") and isinstance(c.func.value, ast.Name):
+                for st in rd.module.tree.body:
+                    if isinstance(st, ast.Assign) and len(st.targets) == 1 and norm(st.targets[0]) == c.func.value.id and isinstance(st.value, ast.Call) \
+                            and dotted(st.value.func) == "re.compile" and st.value.args and isinstance(st.value.args[0], ast.Constant):
+                        mcall = [c]
+                        pattern = st.value.args[0].value
     rep.need("R3d", len(mcall), 1, "regex in _extract_element_and_charge")
-    pattern = mcall[0].args[0].value
+    pattern = pattern if pattern is not None else mcall[0].args[0].value
     rep.extra["charge_regex"] = pattern
     MV = [nm for nm, ds in local_defs(rd.node).items() for d_ in ds if d_.value is mcall[0]]
     MV = MV[0] if MV else "match"
     bad, n = [], 0
+    error_cls = re.error
     try:
         rx = re.compile(pattern)
         for element in ("C", "N", "Cl", "Na", "*", "Fe"):
@@ -142,6 +153,14 @@ def charges(rep):
                     for g in (1, 2, 3):
                         env[f"{MV}.group({g})"] = m.group(g)
                     env[f"{MV}.groups()"] = m.groups()
+                    # every .group(<constants>) / .groupdict() call the parser makes, answered by the real match object
+                    for gc in walk_local(rd.node):
+                        if isinstance(gc, ast.Call) and isinstance(gc.func, ast.Attribute) and norm(gc.func.value) == MV and gc.func.attr in ("group", "groupdict") \
+                                and all(isinstance(a_, ast.Constant) for a_ in gc.args):
+                            try:
+                                env[norm(gc)] = getattr(m, gc.func.attr)(*[a_.value for a_ in gc.args])
+                            except (IndexError, error_cls):
+                                pass
                 got = eval_function(rd.node, env)
                 n += 1
                 if tuple(got) != (element, q):
